@@ -1,5 +1,6 @@
 use crate::util::Tok;
 
+mod bin;
 pub mod c01;
 mod c02;
 mod c02f;
@@ -29,6 +30,7 @@ pub fn run(engine: &str, toks: Vec<Tok>) -> Vec<Tok> {
         "c03_is_global" => c03::is_global(toks),
         "c03_connect" => c03::connect(toks),
         "c03_v4_sweep" => c03::v4_sweep(toks),
+        "bin_run" => bin::run(toks),
         "c02_front" => c02f::run(toks),
         "c04_eval" => c04::eval(toks),
         "c04_front" => c04::front(toks),
